@@ -254,7 +254,8 @@ def run_traced(job, opt=None):
             job["_logid"] = id(calls)
             gen.CALL_LOGS[id(calls)] = calls
     try:
-        task = build_task(job)
+        # `_task_obj`: the caller hands in the very Task object of an earlier call (what a user who calls optimize(task) twice does)
+        task = job["_task_obj"] if job.get("_task_obj") is not None else build_task(job)
         if opt is None and job.get("reconfigure_from") is not None:
             # multi-step history: the instance is built and run under ANOTHER configuration, then given the judged one through the
             # public set_config_parameters (as HyperTuner does); nothing derived from the first configuration may survive
